@@ -88,7 +88,7 @@ func ProfileForRun(prop string, run int) *Profile {
 			return p
 		}
 	}
-	if prop == "C11" && run%3 == 1 {
+	if prop == "C11" && run%2 == 1 {
 		// convergence of the task tables: the general mix rarely gets a task as far as a transport
 		p := ProfileFor("C08")
 		p.Name = "C11/tasks"
